@@ -170,6 +170,33 @@ def xlsx_part(ctx):
         elif not table_tokens_ok(sheets, want, got_t):
             ctx.finding("xlsx:table-cells-lost-or-reordered" + ("" if dim else ":no-dimension-element"),
                         f"XLSX iterate_tables(): cell tokens lost, duplicated or reordered (expected {len(want)}, got {len(got_t)})", rep)
+    # ---- long sheets: row counts beyond the thresholds a renderer might sample (1024 / 2048 / 4096 ...), with the
+    # widest value of a column occurring late, early, or in the middle
+    for R in ([1030, 2100, 2600] if ctx.tier != "thorough" else [1030, 2100, 2600, 4200, 8300, 17000]):
+        ncols = rng.randint(2, 3)
+        wide_from = rng.choice([R - rng.randint(5, 400), R // 2, 3])
+        cells = {}
+        for r in range(R):
+            for c in range(ncols):
+                ids[0] += 1
+                cells[(r, c)] = ("T" + str(ids[0]).zfill(rng.choice([14, 22]) if r >= wide_from and rng.random() < 0.5 else 0) + "x")
+        sheets = [("Long", cells)]
+        dim = rng.random() < 0.5
+        want = [cells[k] for k in sorted(cells)]
+        ctx.case(("xlsx-long", R, ncols, wide_from, dim), True, "xlsx:long-sheet")
+        try:
+            full, tabs = xlsx_text(xlsx_package(sheets, dim))
+        except Exception as e:  # noqa
+            ctx.finding("xlsx:raises", f"read_xlsx raised {type(e).__name__}: {e} on a sheet of {R} rows", {"format": "xlsx", "rows": R})
+            continue
+        got = [w for w in full.split() if is_tok(w)]
+        if got != want:
+            bad = next((i for i, (a, b) in enumerate(zip(got, want)) if a != b), min(len(got), len(want)))
+            ctx.finding("xlsx:long-sheet-cells-merged-or-lost", f"XLSX get_full_text() of a sheet with {R} rows x {ncols} columns whose wider values start "
+                        f"at row {wide_from + 1}: cell tokens merged, lost or reordered (expected {len(want)} words, got {len(got)}; first "
+                        f"difference at word {bad}: {full.split()[bad + 1] if bad + 1 < len(full.split()) else None!r})",
+                        {"format": "xlsx", "generator": {"rows": R, "cols": ncols, "wide_from_row": wide_from + 1, "dimension_element": dim},
+                         "expected_first_difference": want[bad] if bad < len(want) else None})
     return samples
 
 
@@ -328,15 +355,92 @@ def plain_part(ctx):
     return samples
 
 
+# ----------------------------------------------------------------------------- EPUB package level
+EPUB_NAMES = ["chapter{i}.xhtml", "ch{i}.html", "c++_basics{i}.xhtml", "1+1={i}.xhtml", "part-{i}_final.v2.xhtml", "Kapitel\u00dc{i}.xhtml",
+              "text/ch{i}.xhtml", "text/deep/er/ch{i}.xhtml", "a&b{i}.xhtml", "ch(1)[{i}].xhtml", "ch{i}~x.xhtml", "ch,{i};x.xhtml", "ch@{i}$.xhtml"]
+
+
+def epub_package(chapters, opf_dir: str, escaped: set[int]):
+    """chapters: list of (member name relative to the OPF directory, [paragraph tokens]).  hrefs are written literally
+    (XML-escaped only), except for the indices in `escaped`, whose href is percent-encoded (URL-reference form)."""
+    from urllib.parse import quote
+    from xml.sax.saxutils import escape
+    b = io.BytesIO()
+    base = (opf_dir + "/") if opf_dir else ""
+    with zipfile.ZipFile(b, "w", zipfile.ZIP_DEFLATED) as z:
+        z.writestr(zipfile.ZipInfo("mimetype"), "application/epub+zip")
+        z.writestr("META-INF/container.xml", '<?xml version="1.0"?><container version="1.0" xmlns="urn:oasis:names:tc:opendocument:xmlns:container">'
+                   f'<rootfiles><rootfile full-path="{base}content.opf" media-type="application/oebps-package+xml"/></rootfiles></container>')
+        items = "".join(f'<item id="c{i}" href="{escape(quote(n, safe="/") if i in escaped else n, {chr(34): "&quot;"})}" media-type="application/xhtml+xml"/>'
+                        for i, (n, _) in enumerate(chapters))
+        spine = "".join(f'<itemref idref="c{i}"/>' for i in range(len(chapters)))
+        z.writestr(base + "content.opf", '<?xml version="1.0" encoding="UTF-8"?><package xmlns="http://www.idpf.org/2007/opf" version="3.0" unique-identifier="id">'
+                   '<metadata xmlns:dc="http://purl.org/dc/elements/1.1/"><dc:identifier id="id">urn:x</dc:identifier><dc:title>T</dc:title>'
+                   f'<dc:language>en</dc:language></metadata><manifest>{items}</manifest><spine>{spine}</spine></package>')
+        for n, toks in chapters:
+            z.writestr(base + n, '<?xml version="1.0" encoding="UTF-8"?><html xmlns="http://www.w3.org/1999/xhtml"><head><title>x</title></head><body>'
+                       + "".join(f"<p>{t}</p>" for t in toks) + "</body></html>")
+    return b.getvalue()
+
+
+def epub_text(data: bytes):
+    from sharepoint2text.parsing.extractors.epub_extractor import read_epub
+    return next(read_epub(io.BytesIO(data))).get_full_text()
+
+
+def epub_part(ctx):
+    rng = ctx.rng
+    ids = [0]
+    samples = []
+    for _ in range(ctx.n(60, 800)):
+        k = rng.randint(1, 4)
+        names = rng.sample(EPUB_NAMES, k)
+        chapters = []
+        for i, pat in enumerate(names):
+            toks = []
+            for _ in range(rng.randint(1, 3)):
+                ids[0] += 1
+                toks.append(f"T{ids[0]}x")
+            chapters.append((pat.format(i=i), toks))
+        opf_dir = rng.choice(["", "OEBPS", "OPS/pkg"])
+        escaped = {i for i in range(k) if rng.random() < 0.25}
+        data = epub_package(chapters, opf_dir, escaped)
+        samples.append(data)
+        want = [t for _, toks in chapters for t in toks]
+        kind = "percent-encoded-href" if escaped else "literal-href"
+        ctx.case(("epub", tuple(n for n, _ in chapters), opf_dir, tuple(sorted(escaped))), len(want) >= 3, "epub:" + kind)
+        try:
+            got = [w for w in epub_text(data).split() if is_tok(w)]
+        except Exception as e:  # noqa
+            ctx.finding("epub:raises", f"read_epub raised {type(e).__name__}: {e}", {"format": "epub", "chapters": [n for n, _ in chapters]})
+            continue
+        if got != want:
+            missing = [n for n, toks in chapters if any(t not in got for t in toks)]
+            esc_only = bool(missing) and all(i in escaped and quote_differs(chapters[i][0]) for i, (n, _) in enumerate(chapters) if n in missing)
+            ctx.finding("epub:percent-encoded-href-chapter-lost" if esc_only else "epub:chapter-lost-or-reordered",
+                        f"EPUB get_full_text(): chapter text lost, duplicated or out of spine order (expected {len(want)} tokens, got {len(got)}); "
+                        f"affected content documents: {missing}" + (" (manifest href percent-encoded)" if esc_only else " (manifest href written literally)"),
+                        {"format": "epub", "chapters": [[n, toks] for n, toks in chapters], "opf_dir": opf_dir,
+                         "percent_encoded_hrefs": sorted(escaped), "got_tokens": got})
+    return samples
+
+
+def quote_differs(name: str) -> bool:
+    from urllib.parse import quote
+    return quote(name, safe="/") != name
+
+
 # ----------------------------------------------------------------------------- environment sweep
 def run_part(ctx):
     xs = xlsx_part(ctx)
     ms = mbox_part(ctx)
     ps = plain_part(ctx)
+    es = epub_part(ctx)
     rng = ctx.rng
     n = ctx.n(25, 60)
     common.env_sweep(ctx, "xlsx-full-text", lambda d: xlsx_text(d), rng.sample(xs, min(n, len(xs))), describe=lambda d: f"xlsx package {len(d)} bytes")
     common.env_sweep(ctx, "mbox-full-text", lambda d: mbox_texts(d), rng.sample(ms, min(n, len(ms))), describe=lambda d: "mbox hex " + d.hex()[:400])
+    common.env_sweep(ctx, "epub-full-text", epub_text, rng.sample(es, min(n, len(es))), describe=lambda d: f"epub package {len(d)} bytes")
     common.env_sweep(ctx, "plain-full-text", plain_text, rng.sample(ps, min(n, len(ps))), describe=lambda c: f"{c[1]} hex " + c[0].hex()[:400])
     # the repository's fixtures through the public entry point (docx, odt, rtf, pptx, xlsx, ods, odp, eml, mbox, html, txt ...)
     import sharepoint2text
